@@ -899,3 +899,251 @@ func ruleUnionCopy(c *Ctx, r *Report) {
 		}
 	}
 }
+
+// ---- R-NIL-ENTRY, R-FLOAT-LEXICAL, R-PRECISION-BOUND (C20) -------------------------------------
+
+// isGNMIMsgPtr: t is a pointer to a message struct of the gNMI proto package.
+func isGNMIMsgPtr(t types.Type) bool {
+	p, ok := t.(*types.Pointer)
+	if !ok {
+		return false
+	}
+	n, ok := p.Elem().(*types.Named)
+	return ok && n.Obj().Pkg() != nil && n.Obj().Pkg().Path() == "github.com/openconfig/gnmi/proto/gnmi"
+}
+
+// directFieldUses: selections obj.Field (a struct field, not a method) in body that are not under a
+// fact excluding obj == nil.
+func directFieldUses(c *Ctx, f *FuncInfo, body ast.Node, obj types.Object) []*ast.SelectorExpr {
+	info := f.Info()
+	var out []*ast.SelectorExpr
+	ast.Inspect(body, func(x ast.Node) bool {
+		se, ok := x.(*ast.SelectorExpr)
+		if !ok || ObjOf(info, se.X) != obj {
+			return true
+		}
+		sel, ok := info.Selections[se]
+		if !ok || sel.Kind() != types.FieldVal {
+			return true
+		}
+		guarded := false
+		for _, ft := range c.FactsAt(f, se, false) {
+			if ft.Kind != "cond" {
+				continue
+			}
+			if be, ok := ast.Unparen(ft.Cond).(*ast.BinaryExpr); ok && (be.Op == token.EQL || be.Op == token.NEQ) {
+				if (ObjOf(info, be.X) == obj && isNilIdent(info, be.Y)) || (ObjOf(info, be.Y) == obj && isNilIdent(info, be.X)) {
+					// `obj == nil` known false, or `obj != nil` known true.
+					if (be.Op == token.EQL && !ft.Pos) || (be.Op == token.NEQ && ft.Pos) {
+						guarded = true
+					}
+				}
+			}
+		}
+		if !guarded {
+			out = append(out, se)
+		}
+		return true
+	})
+	return out
+}
+
+// ruleNilEntry: the elements of a repeated message field can be nil (proto.Marshal accepts such a
+// message). Code that ranges over one must not select a field of the element directly — it uses
+// the generated nil-safe getter, or tests the element against nil first. The same holds, one call
+// deep, for a function the element is handed to.
+func ruleNilEntry(c *Ctx, r *Report) {
+	r.Rule("R-NIL-ENTRY", "in ytypes/gnmi.go, gnmidiff and ygot/pathstrings.go no field of an element of a repeated gNMI message field (the range variable of a loop over []*gnmi.X, or the parameter of a module function it is passed to) is selected directly without a nil test of the element; the nil-safe getters are used instead", 6)
+	scope := func(s string) bool {
+		return s == "ytypes/gnmi.go" || s == "ygot/pathstrings.go" || strings.HasPrefix(s, "gnmidiff/")
+	}
+	n := 0
+	for _, f := range c.funcsInScope(scope, libPkgs) {
+		info := f.Info()
+		ast.Inspect(f.Decl.Body, func(x ast.Node) bool {
+			rs, ok := x.(*ast.RangeStmt)
+			if !ok || rs.Value == nil {
+				return true
+			}
+			el := ObjOf(info, rs.Value)
+			if el == nil || !isGNMIMsgPtr(el.Type()) {
+				return true
+			}
+			n++
+			key := fmt.Sprintf("%s:range(%s)#%d", f.Name, shortExpr(rs.X), n)
+			// `el, err = g(…, el)` with a callee that rejects a nil argument first: from there on
+			// (the error being returned) el is the callee's non-nil result.
+			guardPos := token.NoPos
+			ast.Inspect(rs.Body, func(y ast.Node) bool {
+				as, ok := y.(*ast.AssignStmt)
+				if !ok || len(as.Rhs) != 1 || len(as.Lhs) < 1 || ObjOf(info, as.Lhs[0]) != el || guardPos != token.NoPos {
+					return true
+				}
+				call, ok := as.Rhs[0].(*ast.CallExpr)
+				if !ok {
+					return true
+				}
+				g := c.funcOfCallee(Callee(info, call))
+				if g == nil || g.Decl.Body == nil {
+					return true
+				}
+				gps := paramObjs(g)
+				for i, a := range call.Args {
+					if ObjOf(info, a) == el && i < len(gps) && len(directFieldUses(c, g, g.Decl.Body, gps[i])) == 0 {
+						guardPos = as.End()
+					}
+				}
+				return true
+			})
+			var uses []*ast.SelectorExpr
+			for _, u := range directFieldUses(c, f, rs.Body, el) {
+				if guardPos == token.NoPos || u.Pos() < guardPos {
+					uses = append(uses, u)
+				}
+			}
+			if len(uses) > 0 {
+				r.Bad(key, c.Pos(uses[0].Pos()), fmt.Sprintf("%s selects %s directly on an element of the repeated field %s: a nil element (accepted by proto.Marshal) is dereferenced and the call panics instead of returning an error", f.Name, types.ExprString(uses[0]), types.ExprString(rs.X)))
+				return true
+			}
+			// one call deep.
+			bad := ""
+			var badPos token.Pos
+			ast.Inspect(rs.Body, func(y ast.Node) bool {
+				call, ok := y.(*ast.CallExpr)
+				if !ok || bad != "" {
+					return bad == ""
+				}
+				if guardPos != token.NoPos && call.Pos() > guardPos {
+					return true
+				}
+				g := c.funcOfCallee(Callee(info, call))
+				if g == nil || g.Decl.Body == nil {
+					return true
+				}
+				gps := paramObjs(g)
+				for i, a := range call.Args {
+					if ObjOf(info, a) != el || i >= len(gps) {
+						continue
+					}
+					// the caller may have tested the element already.
+					if len(directFieldUses(c, f, a, el)) == 0 {
+						callerGuard := false
+						for _, ft := range c.FactsAt(f, call, false) {
+							if be, ok := ast.Unparen(ft.Cond).(*ast.BinaryExpr); ok && ft.Kind == "cond" {
+								if ObjOf(info, be.X) == el && isNilIdent(info, be.Y) && ((be.Op == token.EQL && !ft.Pos) || (be.Op == token.NEQ && ft.Pos)) {
+									callerGuard = true
+								}
+							}
+						}
+						if callerGuard {
+							continue
+						}
+					}
+					if u := directFieldUses(c, g, g.Decl.Body, gps[i]); len(u) > 0 {
+						bad = fmt.Sprintf("%s hands an element of %s to %s, which selects %s directly: a nil element panics", f.Name, types.ExprString(rs.X), g.Name, types.ExprString(u[0]))
+						badPos = u[0].Pos()
+					}
+				}
+				return true
+			})
+			if bad != "" {
+				r.Bad(key, c.Pos(badPos), bad)
+			} else {
+				r.OK(key, c.Pos(rs.Pos()), "elements read through getters or after a nil test")
+			}
+			return true
+		})
+	}
+}
+
+// ruleFloatLexical: every strconv.ParseFloat in ytypes' decoders of decimal64 strings (leaf values
+// and list keys) hands its result on only where the string also matched the decimal64 pattern.
+func ruleFloatLexical(c *Ctx, r *Report) {
+	r.Rule("R-FLOAT-LEXICAL", "in ytypes' string decoders (leaf.go, util_types.go) the result of strconv.ParseFloat is returned only where the same string matched the decimal64 pattern (regexp MatchString): ParseFloat alone accepts NaN, Inf, exponents and hexadecimal floats — a NaN list key is a map key that can never be found again and makes later lookups panic", 3)
+	n := 0
+	for _, f := range c.funcsInScope(func(s string) bool { return s == "ytypes/leaf.go" || s == "ytypes/util_types.go" }, libPkgs) {
+		info := f.Info()
+		pm := c.parentMap(f.File)
+		for _, call := range CallsIn(info, f.Decl.Body, "strconv.ParseFloat") {
+			as, ok := pm[call].(*ast.AssignStmt)
+			if !ok || len(as.Lhs) != 2 {
+				continue
+			}
+			v := ObjOf(info, as.Lhs[0])
+			if v == nil {
+				continue
+			}
+			n++
+			key := fmt.Sprintf("%s:ParseFloat#%d", f.Name, n)
+			bad := false
+			var at token.Pos
+			for _, rs := range returnsOf(f.Decl.Body) {
+				if rs.Pos() < call.Pos() || len(rs.Results) == 0 || !mentionsObj(info, rs.Results[0], v) {
+					continue
+				}
+				matched := false
+				for _, ft := range c.FactsAt(f, rs, false) {
+					if ft.Kind == "cond" && ft.Pos {
+						if cl, ok := ast.Unparen(ft.Cond).(*ast.CallExpr); ok && FullName(Callee(info, cl)) == "regexp.Regexp.MatchString" {
+							matched = true
+						}
+					}
+				}
+				if !matched {
+					bad, at = true, rs.Pos()
+				}
+			}
+			if at == token.NoPos {
+				at = call.Pos()
+			}
+			r.Check(!bad, key, c.Pos(at), "parsed value returned under a successful pattern match",
+				f.Name+" returns what strconv.ParseFloat produced without a lexical check of the string: \"NaN\" (and Inf, 1e3, 0x1p-2) is accepted; as a list key NaN creates a map entry no lookup can find, and SetNode/GetNode/DeleteNode panic")
+		}
+	}
+}
+
+// rulePrecisionBound: the precision of a gNMI Decimal64 is an unvalidated uint32; it may feed an
+// exponentiation or a table only under a dominating comparison with a constant.
+func rulePrecisionBound(c *Ctx, r *Report) {
+	r.Rule("R-PRECISION-BOUND", "ytypes.sanitizeGNMI uses the Precision field of a gNMI Decimal64 (exponent of a power of ten, table index) only under a dominating comparison of that field with a constant: an unbounded precision makes 10^precision a computation of minutes and gigabytes, or an out-of-range index", 1)
+	f := c.MustFunc(r, "ytypes", "sanitizeGNMI")
+	if f == nil {
+		return
+	}
+	info := f.Info()
+	n := 0
+	ast.Inspect(f.Decl.Body, func(x ast.Node) bool {
+		se, ok := x.(*ast.SelectorExpr)
+		if !ok || se.Sel.Name != "Precision" {
+			return true
+		}
+		// skip the comparison itself.
+		if be, ok := c.parentMap(f.File)[se].(*ast.BinaryExpr); ok {
+			switch be.Op {
+			case token.GTR, token.GEQ, token.LSS, token.LEQ:
+				return true
+			}
+		}
+		n++
+		bounded := false
+		for _, ft := range c.FactsAt(f, se, false) {
+			if ft.Kind != "cond" {
+				continue
+			}
+			if be, ok := ast.Unparen(ft.Cond).(*ast.BinaryExpr); ok {
+				switch be.Op {
+				case token.GTR, token.GEQ, token.LSS, token.LEQ:
+					if sameExpr(info, be.X, se) || sameExpr(info, be.Y, se) {
+						bounded = true
+					}
+				}
+			}
+		}
+		r.Check(bounded, fmt.Sprintf("ytypes.sanitizeGNMI:precision-use#%d", n), c.Pos(se.Pos()), "use dominated by a bound on the precision",
+			"sanitizeGNMI uses "+types.ExprString(se)+" without a bound: a TypedValue of a few bytes with precision 2^30 keeps SetNode computing 10^precision for minutes (or indexes a table out of range)")
+		return true
+	})
+	if n == 0 {
+		r.OK("ytypes.sanitizeGNMI:precision-use", c.Pos(f.Decl.Pos()), "the precision is not used")
+	}
+}
